@@ -15,6 +15,7 @@
                                      node has no directory children), with a boolean checker wf_forestb that
                                      the correspondence check evaluates on every model forest;
      names_module                    "context module ctx names module mn by prefix pfx";
+     start_root, plain_path          the unprefixed absolute spelling "/a/b" and the tree it is looked up in;
      no_child                        "this step names no child of the node reached";
      label                           the attributes of a node itself (everything but its subtrees), for the
                                      frame statement of the lazy input/output creation. *)
@@ -110,6 +111,17 @@ Fixpoint import_of (pfx : str) (is : list (str * str)) : option str :=
   | [] => None
   | (p, mn) :: r => if str_eqb pfx p then Some mn else import_of pfx r
   end.
+
+(* the tree an absolute path WITHOUT prefix on its first step is looked up in: the tree of the start position; for a
+   start position filed under a submodule's name, the tree of the module it belongs to *)
+Definition start_root (SC : schema) (start : pos) : str :=
+  match find_module SC (fst start) with
+  | Some sm => match owner SC sm with Some o => m_name o | None => fst start end
+  | None => fst start
+  end.
+
+(* "/n1/n2/...": no prefixes *)
+Definition plain_path (steps : list step) : str := join_abs (map step_name steps).
 
 (* ------------------------------------------------------------------ a step that names no child *)
 Definition dir_lookup (e : entry) (n : str) : option entry :=
